@@ -164,7 +164,7 @@ def check_splitter_guards(fx, rep, rule):
     rep.fn(p)
     b = fx.bodies[p]
     prim = A.func(fx, "java", "java_base_types")
-    sy = S.Sym(fx, opaque=lambda q: q in prim)
+    sy = S.Sym(fx, opaque=lambda q: q in prim, inline_mut=True)
     try:
         res = sy.eval_body(b)
     except S.Undecidable as e:
@@ -205,8 +205,10 @@ def check_splitter_guards(fx, rep, rule):
               found="%d push path(s); every object-type push is guarded by ends_with([';']) and non-empty: %s" % (n_push, ok_push),
               expected="an unterminated `L...` token yields None, never a type")
     # slicing only through get()
-    idxs = [n for n in F.walk(b["body"]) if n.get("k") == "Index" or F.is_call(n, "std::ops::Index::index")]
-    gets = [n for n in F.walk(b["body"]) if F.is_call(n, "core::str::<impl str>::get")]
+    hb_ = [fx.bodies[q] for q in fx.reachable([p]) if fx.bodies[q]["krate"] == "proguard" and q.startswith("proguard::java::")
+           and not q.endswith("java_base_types")]
+    idxs = [n for hb in hb_ for n in F.walk(hb["body"]) if n.get("k") == "Index" or F.is_call(n, "std::ops::Index::index")]
+    gets = [n for hb in hb_ for n in F.walk(hb["body"]) if F.is_call(n, "core::str::<impl str>::get")]
     rep.check(rule, "%s/splitter/checked-slicing" % rule, not idxs and len(gets) >= 2, loc=F.short_file(b["sp"]),
               found="%d raw index/slice operations, %d get(..) calls" % (len(idxs), len(gets)), expected="all slicing by computed byte indices goes through str::get(..)?", nontrivial=False)
 
@@ -223,6 +225,30 @@ def byte_offset(n, fam, seen=None):
     if n.get("k") == "Binary" and n["op"] == "Add":
         a, b = byte_offset(n["l"], fam, seen), byte_offset(n["r"], fam, seen)
         return "sum" if (a and b) else None
+    if n.get("k") == "Call" and "fn" in n and len(seen) < 12:
+        # a private helper returning an index (e.g. `skip_object_type(&mut chars, start) -> usize`): its result is a byte offset
+        # if its tail value is one inside the helper, where its own usize parameters are byte offsets because every argument
+        # passed here is
+        fx_ = fam.fx
+        tgt = fx_.by_dp.get(n["fn"].get("dp"))
+        if tgt and tgt in fx_.bodies and fx_.bodies[tgt]["krate"] == "proguard" and fx_.bodies[tgt].get("output") == "usize":
+            hb = fx_.bodies[tgt]
+            ok_args = True
+            usize_params = set()
+            for prm, arg in zip(hb["params"], n["args"]):
+                if (prm.get("ty") or "") == "usize":
+                    if byte_offset(arg, fam, seen) is None:
+                        ok_args = False
+                    elif prm.get("pat") and prm["pat"].get("k") == "Bind":
+                        usize_params.add(prm["pat"]["id"])
+            if ok_args:
+                hfam = C.Family(fx_, tgt)
+                tail = F.strip(hb["body"])
+                while tail.get("k") == "Block" and tail.get("tail") is not None:
+                    tail = F.strip(tail["tail"])
+                r = byte_offset(tail, hfam, seen | {("trusted-params",) + tuple(sorted(usize_params))})
+                return ("result of %s: %s" % (tgt.split("::")[-1], r)) if r else None
+        return None
     if n.get("k") in ("Var", "Upvar"):
         if n["id"] in seen:
             return "cyclic"
@@ -230,7 +256,13 @@ def byte_offset(n, fam, seen=None):
         srcs = fam.origins.sources(n["id"])
         if not srcs:
             return None
+        trusted = set()
+        for x_ in seen:
+            if isinstance(x_, tuple) and x_ and x_[0] == "trusted-params":
+                trusted |= set(x_[1:])
         for path, expr, how in srcs:
+            if how == "param" and n["id"] in trusted:
+                continue
             if how == "assign" or (how == "let" and path == ()):
                 if expr is None or byte_offset(expr, fam, seen) is None:
                     return None
@@ -251,10 +283,14 @@ def check_byte_offsets(fx, rep, rule):
     if len(p) != 1:
         A.one(rep, rule, "java::parse_obfuscated_bytecode_signature", p)
         return
-    b = fx.bodies[p[0]]
-    fam = C.Family(fx, p[0])
     n_b = 0
-    for n in F.walk(b["body"]):
+    # the splitter and the private helpers it delegates to
+    bodies_ = [q for q in fx.reachable([p[0]]) if fx.bodies[q]["krate"] == "proguard" and q.startswith("proguard::java::")
+               and fx.bodies[q]["kind"] in ("Fn", "AssocFn") and not q.endswith("java_base_types")]
+    for q in sorted(bodies_):
+      b = fx.bodies[q]
+      fam = C.Family(fx, q)
+      for n in F.walk(b["body"]):
         if F.is_call(n, "core::str::<impl str>::get"):
             rng = F.strip(n["args"][1])
             if rng.get("k") == "Adt":
@@ -278,7 +314,7 @@ def check_tokenizer(fx, rep, rule):
         A.one(rep, rule, "java::parse_obfuscated_bytecode_signature / java::java_base_types", [])
         return
     b = fx.bodies[p[0]]
-    sy = S.Sym(fx, opaque=lambda q: q in prim)
+    sy = S.Sym(fx, opaque=lambda q: q in prim, inline_mut=True)        # (private helpers of the splitter are inlined, loops included)
     try:
         res = sy.eval_body(b)
     except S.Undecidable as e:
@@ -411,11 +447,11 @@ def check_tokenizer(fx, rep, rule):
         _check_inner_scan(fx, rep, rule, b, outer, inner, last, outcome)
     # first_idx starts at 0
     init0 = False
-    for n_ in F.walk(b["body"]):
-        if n_.get("k") == "Block":
-            for s_ in n_["stmts"]:
-                if s_["k"] == "Let" and s_["pat"]["k"] == "Bind" and s_["pat"]["name"] == first[1] and s_.get("init") is not None:
-                    init0 = C.int_lit(s_["init"]) == 0
+    for n_ in F.walk(outer["node"]["body"]):
+        if n_.get("k") in ("Var", "Upvar") and n_.get("name") == first[1]:
+            init0 = outer["pre"].env.get(n_["id"]) == lit_int(0)       # value of the token start on loop entry
+            if init0:
+                break
     rep.check(rule, "%s/tokenizer/start-at-zero" % rule, init0, loc=F.short_file(b["sp"]), found="token start initialised to 0: %s" % init0, expected="0", nontrivial=False)
 
 
@@ -433,12 +469,13 @@ def _check_inner_scan(fx, rep, rule, b, outer, inner, last, outcome):
     bad2, n2 = fc.compare_paths(inner["paths"], iref, outcome, rw=R.rw_iter, base=ib)
     # initial value of the scan position = index of the 'L'
     init_ok = False
-    for n_ in F.walk(outer["node"]["body"]):
-        if n_.get("k") == "Block":
-            for s_ in n_["stmts"]:
-                if s_["k"] == "Let" and s_["pat"]["k"] == "Bind" and s_["pat"]["name"] == last[1] and s_.get("init") is not None:
-                    i_ = F.strip(s_["init"])
-                    init_ok = i_.get("k") == "Var" and i_.get("ty") == "usize"
+    for n_ in F.walk(inner["node"]["body"]):
+        if n_.get("k") in ("Var", "Upvar") and n_.get("name") == last[1]:
+            pv = inner["pre"].env.get(n_["id"])
+            # value of the scan position when the scan starts: the index of the 'L' (the token loop's current element index)
+            init_ok = pv is not None and fc.rewrite(pv, R.rw_iter) == mk_field(R.ELEM, "0")
+            if init_ok:
+                break
     drv = None
     for n_ in F.walk(inner["node"]["body"]):
         if F.is_call(n_, "std::iter::Iterator::next"):
